@@ -70,6 +70,56 @@ def _call_nodes(ix: Index, calls) -> List[int]:
 # R1 four windows
 # ---------------------------------------------------------------------------
 
+def _is_render_call(p, fn: Func, c: ast.Call, depth=0) -> bool:
+    """The call renders the response body: `<x>._get_body(...)` / `<x>.render_body()` or a resolved helper that does."""
+    if isinstance(c.func, ast.Attribute) and c.func.attr in ('_get_body', 'render_body'):
+        return True
+    t = p.callee(fn, c) if depth < 2 else None
+    return isinstance(t, Func) and any(isinstance(x, ast.Call) and _is_render_call(p, t, x, depth + 1) for x in walk_self(t.node))
+
+
+def _render_calls_protected(run, af: AppFlow, tag: str, outside_only: bool) -> List[int]:
+    """Every call of the body renderer in __call__ - wherever it stands - has only `except <every Exception>` arms as
+    exceptional successors.  A second `_get_body()` / `render_body()` placed in the except arm of the rendering
+    window (to send what the handler composed) is outside every window: a second rendering failure - the error
+    document negotiated to the same failing media handler - reaches the server, which gets no response at all.
+    -> ids of the arms that protect the calls found outside the rendering window (their discipline is R1's)."""
+    p = run.project
+    cfg, f = af.cfg, af.func
+    calls = [n.id for n in cfg.live_nodes() if n.kind not in ('entry', 'exit', 'xexit', 'join')
+             and any(_is_render_call(p, f, c) for c in n.calls())]
+    if not calls:
+        raise AnchorError('%s: no call of the body renderer' % f.qual)
+    arms: List[int] = []
+    for nid in sorted(calls):
+        inside = nid in af.render_nodes
+        if inside and outside_only:
+            continue
+        node = cfg.node(nid)
+        tg = [cfg.node(y) for (y, l) in cfg.succ[nid] if l == 'exc']
+        app = [t for t in tg if t.kind == 'handler' and catches_exception(p, f, t.ast)]
+        leaks = [t for t in tg if t.kind != 'handler']
+        text = short(node.ast if node.ast is not None else node.text())
+        run.check(bool(app) and not leaks,
+                  '%s: every call of the body renderer runs inside a try whose except arm catches every Exception '
+                  '(also one that renders again after a handled failure)' % tag,
+                  f, text if inside else 'body rendered outside the rendering window: ' + text,
+                  where='%s:%s' % (f.file, node.lineno), witness=['exceptional successors: ' + ', '.join(t.text() for t in tg)],
+                  runtime_witness='a media handler that raises for resp.media AND for the error document negotiated to its type '
+                                  '(Accept prefers it): the second failure escapes the app callable - no start_response / no response '
+                                  'start event - instead of giving a 500')
+        if not inside:
+            arms.extend(t.id for t in app)
+    return arms
+
+
+def r1_render_calls_protected(run):
+    """Shared with C05 (R14): a rendering failure never leaves the app callable without a response having been started."""
+    _anchors(run.project)
+    for _app, qual, tag in APPS:
+        _render_calls_protected(run, AppFlow(run.project, qual), tag, outside_only=False)
+
+
 def _windows(run, qual, tag):
     p = run.project
     af = AppFlow(p, qual)
@@ -88,7 +138,8 @@ def _windows(run, qual, tag):
         raise AnchorError('%s: body rendering has no raising statement' % qual)
     user.extend(('RENDER', n) for n in render)
 
-    handlers: Set[int] = set()
+    # ... and EVERY call of the body renderer, wherever it stands (r1_render_calls_protected)
+    handlers: Set[int] = set(_render_calls_protected(run, af, tag, outside_only=True))
     for lab, nid in user:
         node = cfg.node(nid)
         tg = [cfg.node(y) for (y, l) in cfg.succ[nid] if l == 'exc']
@@ -132,8 +183,14 @@ def _windows(run, qual, tag):
                   '%s: the except arm hands the exception to _handle_exception before anything else happens' % tag,
                   f, label, where=where, witness=flow.describe_path(cfg, path) if path else None,
                   runtime_witness='an exception in this window is not passed to any registered handler')
-        # the caught exception is what is passed on
-        for hid in sorted(handle_nodes & body):
+        # the caught exception is what is passed on (a handler nested in this arm - rendering again under its own
+        # try - passes on its own exception and is checked as an arm of its own)
+        nested: Set[int] = set()
+        for st in arm.body:
+            for h2 in walk_self(st):
+                if isinstance(h2, ast.ExceptHandler):
+                    nested |= nodes_within(cfg, h2.body)
+        for hid in sorted((handle_nodes & body) - nested):
             for c in cfg.node(hid).calls():
                 if dotted(c.func) == 'self._handle_exception':
                     exarg = c.args[2] if len(c.args) >= 3 else None
@@ -165,13 +222,7 @@ def _render_window_result(run, af, cfg, f, tag, render, hok):
             t = cfg.node(y)
             if l == 'exc' and t.kind == 'handler' and catches_exception(p, f, t.ast):
                 arms.add(y)
-    def is_render(c, depth=0, fn=f):
-        if isinstance(c.func, ast.Attribute) and c.func.attr in ('_get_body', 'render_body'):
-            return True
-        t = p.callee(fn, c) if depth < 2 else None
-        return isinstance(t, Func) and any(isinstance(x, ast.Call) and is_render(x, depth + 1, t) for x in walk_self(t.node))
-
-    renders = [n.id for n in cfg.live_nodes() if any(is_render(c) for c in n.calls())]
+    renders = [n.id for n in cfg.live_nodes() if any(_is_render_call(p, f, c) for c in n.calls())]
     out = set(af.nodes_labelled('START')) | set(af.nodes_labelled('SEND'))
     if not out:
         raise AnchorError('%s: no start_response/send call' % f.qual)
@@ -284,19 +335,35 @@ def _find_handler(run, f: Func, tags: str):
     if not isinstance(lp.target, ast.Name):
         raise UnknownIdiom('%s: loop target %s' % (f.qual, short(lp.target)))
     var = lp.target.id
-    # lookup in the registry keyed by the loop variable
+    # lookup in the registry keyed by the loop variable; the registry and its
+    # bound `get` may be held in a local all of whose bindings are that value
+    # (`get_handler = self._error_handlers.get` hoisted out of the loop: the
+    # registry is only ever mutated in place - ownership clause of R2 - so
+    # the bound method sees every registration)
+    reg_al = _aliases(f, lambda e: is_self_attr(e, '_error_handlers'))
+
+    def is_registry(e):
+        return is_self_attr(e, '_error_handlers') or (isinstance(e, ast.Name) and e.id in reg_al)
+
+    def is_get_attr(e):
+        return isinstance(e, ast.Attribute) and e.attr == 'get' and is_registry(e.value)
+
+    get_al = _aliases(f, is_get_attr)
+
+    def is_get(e):
+        return is_get_attr(e) or (isinstance(e, ast.Name) and e.id in get_al)
+
     look = None
     for n in walk_self(lp):
         if isinstance(n, (ast.Assign, ast.AnnAssign)):
             v = n.value
             tg = n.targets[0] if isinstance(n, ast.Assign) and len(n.targets) == 1 else (n.target if isinstance(n, ast.AnnAssign) else None)
-            if (isinstance(v, ast.Call) and isinstance(v.func, ast.Attribute) and v.func.attr == 'get'
-                    and is_self_attr(v.func.value, '_error_handlers') and v.args and is_name(v.args[0], var)
-                    and (len(v.args) == 1 or (isinstance(v.args[1], ast.Constant) and v.args[1].value is None))
+            if (isinstance(v, ast.Call) and is_get(v.func) and v.args and is_name(v.args[0], var) and not v.keywords
+                    and (len(v.args) == 1 or (len(v.args) == 2 and isinstance(v.args[1], ast.Constant) and v.args[1].value is None))
                     and isinstance(tg, ast.Name)):
                 look = (n, tg.id)
     if look is None:
-        if any(is_self_attr(x, '_error_handlers') for x in walk_self(lp)):
+        if any(is_self_attr(x, '_error_handlers') for x in walk_self(f.node)):
             raise UnknownIdiom('%s: registry lookup idiom in the MRO loop' % f.qual)
         raise AnchorError('%s: no lookup of self._error_handlers in the MRO loop' % f.qual)
     stmt, h = look
@@ -1354,53 +1421,109 @@ def _self_attrs_at(p, f: Func, e) -> frozenset:
 
 
 def _expand_field_loop(p, f: Func, cfg, ix, store, keyvar):
-    """Fields written by `obj[<keyvar>] = <value>` inside `for <keyvar> in (<str consts>)`
-    where <value> is getattr(self, <keyvar>) (directly or through one local)."""
-    loops = [lp for lp in walk_self(f.node) if isinstance(lp, ast.For) and isinstance(lp.target, ast.Name) and lp.target.id == keyvar
-             and any(x is store for x in ast.walk(lp))]
+    """Fields written by `obj[<keyvar>] = <value>` inside a loop over constant field names (see _field_loop)."""
+    nid = single(cfg.nodes_for(store), 'field store node', f.qual)
+    return _field_loop(p, f, ix, store, nid, keyvar, store.value, exact=True)
+
+
+def _field_loop(p, f: Func, ix, anchor, nid: int, keyvar: str, content, exact: bool):
+    """A document field emitted inside a loop over a CONSTANT table, unrolled: one (guard set, source attributes,
+    anchor) entry per field, exactly what the hand-written blocks give.  Two spellings are read:
+      A  for <key> in ('title', 'description', ...):  the value is getattr(self, <key>), directly or through one
+         local bound once in the loop body
+      B  for <key>, <val> in (('title', self.title), ('code', self.code), ...):  the value is <val>
+    `content` is the expression written into the document at `anchor` (CFG node `nid`): it must be the value itself
+    (exact) or be made from it (XML: `str(value)`).  Branch facts on the value stand for facts on self.<attr>: a fact
+    equivalent to `is (not) None` is named so, any other test of it (truthiness, ...) keeps its text - and so differs
+    from the `is not None` guard of the sibling.  None: not such a loop (the caller fails closed)."""
+    def in_target(t):
+        if isinstance(t, ast.Name):
+            return t.id == keyvar
+        return isinstance(t, ast.Tuple) and len(t.elts) == 2 and all(isinstance(e, ast.Name) for e in t.elts) and t.elts[0].id == keyvar
+
+    loops = [lp for lp in walk_self(f.node) if isinstance(lp, ast.For) and in_target(lp.target) and any(x is anchor for x in ast.walk(lp))]
     if len(loops) != 1:
         return None
     lp = loops[0]
-    names = p.fold(f.module, lp.iter, None, f)
-    if not (isinstance(names, (tuple, list)) and names and all(isinstance(x, str) for x in names)):
+    if lp.orelse:
         return None
+    body_mod = ast.Module(body=lp.body, type_ignores=[])
 
-    def is_getattr(e):
-        return (isinstance(e, ast.Call) and isinstance(e.func, ast.Name) and e.func.id == 'getattr' and len(e.args) >= 2
-                and is_name(e.args[0], 'self') and is_name(e.args[1], keyvar))
+    def rebinds(name):
+        out = []
+        for a in walk_self(body_mod):
+            tgts = a.targets if isinstance(a, ast.Assign) else [a.target] if isinstance(a, (ast.AugAssign, ast.AnnAssign, ast.NamedExpr, ast.For)) else []
+            if any(isinstance(x, ast.Name) and x.id == name and not isinstance(x.ctx, ast.Load) for t in tgts for x in ast.walk(t)):
+                out.append(a)
+        return out
 
-    val = store.value
-    valvar = None
-    if isinstance(val, ast.Name):
-        binds = [a for a in walk_self(lp) if isinstance(a, ast.Assign) and any(is_name(t, val.id) for t in a.targets)]
-        if len(binds) == 1 and is_getattr(binds[0].value):
-            valvar = val.id
-        else:
+    if rebinds(keyvar):
+        return None
+    if isinstance(lp.target, ast.Name):
+        names = p.fold(f.module, lp.iter, None, f)
+        if not (isinstance(names, (tuple, list)) and names and all(isinstance(x, str) for x in names)):
             return None
-    elif not is_getattr(val):
+        if len(set(names)) != len(names):
+            return None
+        table = [(nm, nm) for nm in names]
+
+        def is_source(e):
+            return (isinstance(e, ast.Call) and isinstance(e.func, ast.Name) and e.func.id == 'getattr' and len(e.args) == 2
+                    and not e.keywords and is_name(e.args[0], 'self') and is_name(e.args[1], keyvar))
+
+        valvars = set()
+        for a in walk_self(body_mod):
+            if isinstance(a, ast.Assign) and len(a.targets) == 1 and isinstance(a.targets[0], ast.Name) and is_source(a.value):
+                if len(rebinds(a.targets[0].id)) == 1:
+                    valvars.add(a.targets[0].id)
+    else:
+        if not isinstance(lp.iter, (ast.Tuple, ast.List)) or not lp.iter.elts:
+            return None
+        table = []
+        for el in lp.iter.elts:
+            if not (isinstance(el, (ast.Tuple, ast.List)) and len(el.elts) == 2):
+                return None
+            nm = p.fold(f.module, el.elts[0], None, f)
+            src = el.elts[1]
+            if not isinstance(nm, str) or not (isinstance(src, ast.Attribute) and is_name(src.value, 'self')):
+                return None
+            table.append((nm, src.attr))
+        if len({nm for nm, _a in table}) != len(table):
+            return None
+        vv = lp.target.elts[1].id
+        if rebinds(vv):
+            return None
+        valvars = {vv}
+
+        def is_source(e):
+            return False
+
+    def is_val(e):
+        return (isinstance(e, ast.Name) and e.id in valvars) or is_source(e)
+
+    if exact:
+        if not is_val(content):
+            return None
+    elif not any(is_val(x) for x in ast.walk(content)):
         return None
-    nid = single(cfg.nodes_for(store), 'field store node', f.qual)
     out = {}
-    for nm in names:
+    for nm, attr in table:
         guards = set()
         for (test, truth) in ix.facts(nid):
-            # tests on the loop-local value stand for tests on self.<nm>
-            def is_val(e):
-                return (valvar is not None and is_name(e, valvar)) or is_getattr(e)
-
             if not any(is_val(x) for x in ast.walk(test)):
-                # the loop header itself / unrelated tests keep their text
+                # unrelated tests keep their text; one on the key alone cannot be unrolled here
                 if any(is_name(x, keyvar) for x in ast.walk(test)):
-                    continue
+                    return None
                 guards.add('%s is %s' % (short(test), truth))
                 continue
+            # tests on the loop-local value stand for tests on self.<attr>
             r_none = eval3(test, assume_none(is_val, True))
             r_not = eval3(test, assume_none(is_val, False))
             if r_none is None or r_not is None or r_none == r_not:
-                guards.add('self.%s: %s is %s' % (nm, short(test), truth))       # e.g. a truthiness test: not an `is None` test
+                guards.add('self.%s: %s is %s' % (attr, short(test), truth))       # e.g. a truthiness test: not an `is None` test
             else:
-                guards.add('self.%s is %sNone' % (nm, '' if r_none == truth else 'not '))
-        out[nm] = (frozenset(guards), frozenset([nm]), store)
+                guards.add('self.%s is %sNone' % (attr, '' if r_none == truth else 'not '))
+        out[nm] = (frozenset(guards), frozenset([attr]), anchor)
     return out
 
 
@@ -1454,6 +1577,21 @@ def _xml_fields(run, f: Func):
     fields = {}
     for c in subs(root):
         k = c.args[1]
+        if isinstance(k, ast.Name):
+            # `for name in ('title', 'description', 'code'): value = getattr(self, name); if <guard on value>:
+            #      et.SubElement(root, name).text = str(value)` - unrolled over the constant table
+            knid = ix.node_of(c, 'SubElement call')
+            kst = cfg.node(knid).ast
+            expanded = None
+            if (isinstance(kst, ast.Assign) and len(kst.targets) == 1 and isinstance(kst.targets[0], ast.Attribute)
+                    and kst.targets[0].attr == 'text' and kst.targets[0].value is c):
+                expanded = _field_loop(p, f, ix, c, knid, k.id, kst.value, exact=False)
+            if expanded is not None:
+                dup = sorted(set(expanded) & set(fields))
+                if dup:
+                    raise UnknownIdiom('%s: element %r emitted by a loop and by a statement of its own' % (f.qual, dup[0]))
+                fields.update(expanded)
+                continue
         if not (isinstance(k, ast.Constant) and isinstance(k.value, str)):
             raise UnknownIdiom('%s: element name %s' % (f.qual, short(k)))
         nid = ix.node_of(c, 'SubElement call')
